@@ -214,6 +214,8 @@ package fosite
 //@   ensures result.GetID() == recv.GetID() && result.GetClient() == recv.GetClient() && result.GetSession() == recv.GetSession() && result.GetRequestedAt() == recv.GetRequestedAt()
 //@   ensures result.GetGrantedScopes() == recv.GetGrantedScopes() && result.GetGrantedAudience() == recv.GetGrantedAudience() && result.GetRequestedScopes() == recv.GetRequestedScopes() && result.GetRequestedAudience() == recv.GetRequestedAudience()
 //@   ensures result.GetRequestForm() != nil && fresh(result.GetRequestForm())
+// ... and to nothing else: a key that is neither allowed nor one of the four default keys is absent from the result's form
+//@   ensures forall k string :: !insl(allowedParameters, k) && k != "grant_type" && k != "response_type" && k != "scope" && k != "client_id" ==> formget(result.GetRequestForm(), k) == ""
 //@   ensures forall k string :: insl(allowedParameters, k) || k == "grant_type" || k == "response_type" || k == "scope" || k == "client_id" ==> formget(result.GetRequestForm(), k) == formget(old(recv.GetRequestForm()), k)
 //@   ensures forall k string :: !(insl(allowedParameters, k) || k == "grant_type" || k == "response_type" || k == "scope" || k == "client_id") ==> formget(result.GetRequestForm(), k) == ""
 //@   ensures implements(recv, DeviceRequester) ==> implements(result, DeviceRequester)
